@@ -150,7 +150,7 @@ def _join_prints(lines):
     return out
 
 
-_cov_re = re.compile(r"^<(\w+) (line \d+, col \d+ to line \d+, col \d+ of module \w+)>: (\d+):(\d+)")
+_cov_re = re.compile(r"^<(\w+) (line \d+, col \d+ to line \d+, col \d+ of module \w+)(?: \([\d ]+\))?>: (\d+):(\d+)")
 
 
 def run_tlc(module, cfg, workers=8, env=None, timeout=3600, simulate=None, heap="6g", coverage=True,
@@ -221,7 +221,8 @@ def run_tlc(module, cfg, workers=8, env=None, timeout=3600, simulate=None, heap=
     return r
 
 
-def tlc_mc(module, cfg, workers=8, timeout=3600, heap="6g", env=None, must_take=None, check=None):
+def tlc_mc(module, cfg, workers=8, timeout=3600, heap="6g", env=None, must_take=None, check=None, coverage=True,
+           stack=None):
     """Model-check an MC config of the *intended* design.  A violation here is a tool error: the
     specification itself is wrong (never reported as a pass, never as a VIOLATION of the code)."""
     if os.environ.get("VERIF_DEBUG_SKIP_MC") and check is not None:      # development aid only
@@ -229,7 +230,7 @@ def tlc_mc(module, cfg, workers=8, timeout=3600, heap="6g", env=None, must_take=
         check.states += 1
         check.transitions += 1
         return None
-    r = run_tlc(module, cfg, workers=workers, timeout=timeout, heap=heap, env=env)
+    r = run_tlc(module, cfg, workers=workers, timeout=timeout, heap=heap, env=env, coverage=coverage, stack=stack)
     if not r.ok:
         sys.stdout.write(r.out[-5000:])
         raise ToolError(f"TLC did not complete cleanly on {module}/{cfg}: rc={r.rc} {r.violation}")
@@ -408,7 +409,7 @@ def validate_file(trace_module, cfg, path, known_ids, timeout=3600, heap="3g", e
 
 
 def validate(trace_module, cfg, event_lists, known_ids, tag, chunk_events=4000, jobs=None, timeout=3600,
-             extra_env=None):
+             extra_env=None, heap="3g"):
     """event_lists: list of per-case event lists.  Cases are concatenated into chunks (each case
     starts with its own Reset/first event, so chunks are independent), validated in parallel.
     Returns list of (case_index, ValResult-like info) for mismatches and the known-finding hits."""
@@ -430,7 +431,7 @@ def validate(trace_module, cfg, event_lists, known_ids, tag, chunk_events=4000, 
         evs, idxs = chunks[k]
         path = os.path.join(WORK, f"trace-{tag}-{os.getpid()}-{k}.ndjson")
         write_ndjson(path, evs)
-        v = validate_file(trace_module, cfg, path, known_ids, timeout=timeout, extra_env=extra_env)
+        v = validate_file(trace_module, cfg, path, known_ids, timeout=timeout, extra_env=extra_env, heap=heap)
         os.remove(path)
 
         def case_of(l):
